@@ -1,7 +1,7 @@
 (* C19: the statements of Properties/C19.v, assembled from C19_inv and C19_prog. *)
 From Coq Require Import List NArith Bool Arith Lia.
 From K.Model Require Import C19.
-From K.Proof Require Import C19_base C19_inv C19_prog.
+From K.Proof Require Import C19_base C19_inv C19_prog C19_obs.
 Import ListNotations.
 
 Section Final.
@@ -91,6 +91,14 @@ Proof.
       * destruct (p_conns P (peers P t sd)); [reflexivity|]. destruct (Nat.leb _ _); reflexivity.
     + intros t. induction (p_reqs P (peers P t a)); cbn; auto.
 Qed.
+
+(* the executable form of the property holds on the observations of every model run *)
+Theorem check_sound : forall (g : cfg P) (peqb : P -> P -> bool) ps ls,
+  sums_ok P sum g -> (forall a b, peqb a b = true <-> a = b) ->
+  Forall (cf P plen sum g) (payloads P ls) ->
+  C19_check P peqb g (payloads P ls) (run_log P plen sum g (init P g ps) ls)
+            (observe P g (run P plen sum g (init P g ps) ls) ps) = true.
+Proof. intros g peqb ps ls Hs Hp Hcf. now apply (C19_obs.check_sound P plen sum g Hs peqb Hp). Qed.
 
 End Final.
 
